@@ -9,6 +9,7 @@ mod mon;
 mod props;
 mod rng;
 mod vals;
+mod walker;
 
 use mon::{Ctx, Tier};
 
